@@ -22,6 +22,8 @@ def classify_build(out, feats):
     msg = re.sub(r"\b[A-Z]\w*\d+\b", "T", msg)          # generated type names
     msg = re.sub(r"struct\{.*", "struct{…}", msg)
     msg = re.sub(r"\"[^\"]*\"", "\"…\"", msg)[:90]
+    if feats.get("self_view_differs"):
+        return "build/result-type-renders-itself-with-another-view/" + ("redeclared" if "redeclared" in msg else "other")
     if re.search(r"cannot use (\[\]interface\{\}|map\[string\]interface\{\})\{…\} .* in assignment", msg):
         return "build/collection-default-given-as-interface-values"
     where = re.search(r"(gen/[\w/]+/|cmd/[\w-]+/|\w+\.go)", first)
@@ -81,6 +83,9 @@ def run(c):
         rep = designs.run_design(dj, wd, example=True)
         feats = designs.features(dj)
         feats["risky"] = designs.risky_name(dj) if "-risky-names" in flags else None
+        if "-views-design" in flags:
+            from . import c08
+            feats["self_view_differs"] = c08.self_view_differs(json.loads(dj))
         res = {"index": i, "flags": flags, "feats": feats, "design": dj}
         if rep.get("crash"):
             res.update(status="crash", detail=rep["crash"])
